@@ -419,7 +419,15 @@ class DemoStorage(ConflictResolvingStorage):
         self._commit_lock.acquire()
 
         with self._lock:
-            self.changes.tpc_begin(transaction, *a, **k)
+            try:
+                self.changes.tpc_begin(transaction, *a, **k)
+            except BaseException:
+                # The changes storage may already hold its commit lock
+                # (e.g. FileStorage rejecting over-long metadata); our
+                # tpc_abort() would not forward to it.
+                self.changes.tpc_abort(transaction)
+                self._commit_lock.release()
+                raise
             self._transaction = transaction
             self._stored_oids = set()
             del self._resolved[:]
